@@ -176,10 +176,14 @@ def error_propagation(chk, rng, per_overload, prefix="c06"):
 
 def limit_transparency(chk, rng, per_overload, prefix="c08", sweeps=None):
     from . import c01 as L
-    calls = lib_calls(rng, per_overload, want_lambda=True)
+    calls = lib_calls(rng, per_overload, want_lambda=False)
     sweeps = sweeps or {"ud_calls": [1, 2, 3, 4, 6, 9, 14, 30, 100], "depth": [1, 2, 3, 5], "search": [1, 2, 3, 5, 9, 20, 100]}
     cases = []
+    lazy = lambda t: (not isinstance(t, str)) and t[0] == 'N' and t[1] in ('Generator', 'Sequence')
     for name, sig, args, tys, ret in calls:
+        has_cb = any('->' in a for a in args)
+        if not has_cb and not (any(lazy(t) for t in tys) or lazy(ret)):
+            continue
         call = f"{name}({', '.join(args)})"
         lines = [f"let r = {call};"]
         names = ["r"]
@@ -201,6 +205,8 @@ def limit_transparency(chk, rng, per_overload, prefix="c08", sweeps=None):
             chk.count(f"{prefix}:lib-limits:baseline-{b['outcome']}{'' if b == b2 else '-unstable'}")
             continue
         for lim, values in sweeps.items():
+            if lim in ("ud_calls", "depth") and '->' not in src:
+                continue      # no user callback anywhere: only the search limit can matter
             for v in values:
                 todo.append((name, sig, src, names, lim, v, b))
     limits_of = lambda lim, v: dict(BASE_LIMITS, **{lim: v})
